@@ -354,6 +354,26 @@ def history_rows(ctx):
     # a defaulted count follows the data (no error), an explicit smaller one stays
     m = SSPOR(basis=Identity(n_basis_modes=3)).fit(X.copy(), quiet=True, seed=0)
     rows.append(("SSPOR[default n_sensors].fit(narrower data)", outcome(lambda: m.fit(Xn.copy(), quiet=True, seed=0)), None))
+    # error paths that leave state behind: a refit on wider data that the optimizer rejects (cost vector of the old length /
+    # unknown constraint option); afterwards only the 8 sensors ranked before are available, so larger counts stay invalid
+    from pysensors.optimizers import CCQR, GQR
+    Xw = (np.arange(72, dtype=float).reshape(6, 12) * 5) % 13
+    for how in ("ccqr_costs", "gqr_bad_option"):
+        for meth in ("set_number_of_sensors", "set_n_sensors"):
+            for cnt in (9, 10, 12, 13):
+                if how == "ccqr_costs":
+                    m = SSPOR(basis=Identity(n_basis_modes=3), optimizer=CCQR(sensor_costs=np.ones(8))).fit(X.copy(), quiet=True, seed=0)
+                    first = outcome(lambda: m.fit(Xw.copy(), quiet=True, seed=0))
+                    want_first = "E:ValueError"
+                else:
+                    m = SSPOR(basis=Identity(n_basis_modes=3), optimizer=GQR()).fit(X.copy(), quiet=True, seed=0)
+                    first = outcome(lambda: m.fit(Xw.copy(), quiet=True, seed=0, constraint_option="bogus"))
+                    want_first = "E:NotImplemented"
+                if cnt == 9 and meth == "set_number_of_sensors":
+                    rows.append((f"SSPOR[{how}].fit(wider data) is rejected", first, want_first))
+                if first == want_first and len(m.ranked_sensors_) == 8:
+                    rows.append((f"SSPOR[{how}: refit on 12 sensors rejected, 8 sensors ranked].{meth}({cnt})",
+                                 outcome(lambda: getattr(m, meth)(cnt)), "E:ValueError"))
     for cell, real, req in rows:
         ctx.evaluations += 1
         ctx.nontriv("hist:" + cell)
